@@ -53,7 +53,8 @@ def parseCase (kv : KV) : CaseIn :=
              tls := (get kv "tls").toNat?.getD 0, version := getHex kv "ver",
              gparams := parseGP (get kv "gp"),
              wleft := if wf = "-" ∨ wf = "" then none else wf.toNat?,
-             tail := if get kv "rf" = "1" then .rerr else .wait },
+             tail := if get kv "rf" = "1" then .rerr
+                     else if get kv "rf" = "2" then .eof (get kv "partial" = "1") else .wait },
     h := { parse := Script.parse, validate := Script.validate, mws,
            terminate := if term = "1" then some true else if term = "2" then some false else none },
     inp := getHex kv "in", tin := getHex kv "tin", cx := get kv "cx" = "1", kv }
@@ -381,6 +382,45 @@ def oracleExt (c : CaseIn) (chunks : List Bytes) (rkv : KV) : Option String :=
   | some p => some ("C06:reply-not-attributed:" ++ String.singleton p.1 ++ "@" ++ toString p.2)
   | none => go {} items
 
+/-- C01 oracle: recompute from the INPUT whether the strategy accepted the connection; if not,
+    the implementation must not have sent AuthenticationOk / ParameterStatus / ReadyForQuery,
+    must not have run anything but the validator, and must have closed the connection -/
+def oracleAuth (c : CaseIn) (chunks : List Bytes) (rkv : KV) : Option String :=
+  let L := effLimit c.cfg.L
+  match rd32 c.inp with
+  | none => none
+  | some (n0, _) =>
+    let body := (c.inp.take n0).drop 8
+    let cp := (readClientParams (body.length + 1) body []).getD []
+    let user := (lookup (ascii "user") cp).getD []
+    let db := (lookup (ascii "database") cp).getD []
+    let rest := c.inp.drop n0
+    let first := readItem L rest
+    let accepted := match first with
+      | some (.msg t pwb, _) => t = ch 'p' && (match cstr pwb with
+          | some (pw, _) => decide (Script.validate db user pw = Verdict.accept)
+          | none => false)
+      | _ => false
+    let rejected := match first with
+      | some (.msg t pwb, _) => t = ch 'p' && (match cstr pwb with
+          | some (pw, _) => decide (Script.validate db user pw = Verdict.reject)
+          | none => false)
+      | _ => false
+    let frames := implFrames chunks
+    let hasAuthOk := frames.any fun (t, b) => t = ch 'R' ∧ b = be32 0
+    let evs := ((get rkv "ev").splitOn ";").filter (· ≠ "")
+    if accepted then (if hasAuthOk then none else some "C01:accepted-but-no-AuthenticationOk")
+    else if hasAuthOk then some "C01:AuthenticationOk-without-acceptance"
+    else if frames.any (fun (t, _) => t = ch 'S' ∨ t = ch 'Z') then some "C01:session-messages-without-acceptance"
+    else if evs.any (fun e => !(e.startsWith "V:")) then some ("C01:callback-without-acceptance:" ++ (get rkv "ev").take 60)
+    else if evs.length > 1 then some "C01:validator-called-twice"
+    else if first.isSome ∧ get rkv "end" ≠ "c" then some "C01:connection-not-closed"
+    else if rejected ∧ !(frames.any fun (t, b) => t = ch 'E' &&
+        (match parseErrFields (b.length + 1) b with
+         | some fs => decide (((fs.lookup (ch 'C')).getD []).take 2 = [50, 56])
+         | none => false)) then some "C01:wrong-password-not-reported-with-class-28"
+    else none
+
 def oracle (c : CaseIn) (chunks : List Bytes) (rkv : KV) : Option String :=
   if c.camp = "errors" then oracleErrors c chunks
   else if c.camp = "params" then oracleParams c rkv
@@ -389,6 +429,7 @@ def oracle (c : CaseIn) (chunks : List Bytes) (rkv : KV) : Option String :=
   else if c.camp = "bind" then oracleBind c chunks rkv
   else if c.camp = "simple" then oracleSimple c chunks rkv
   else if c.camp = "ext" then oracleExt c chunks rkv
+  else if c.camp = "auth" then oracleAuth c chunks rkv
   else oracleExpect c chunks rkv
 
 def processLine (line : String) : String :=
